@@ -1,6 +1,6 @@
 #!/usr/bin/env python3
 """confirm a seeded change delivered by a sub-agent, in its scratch worktree (never /repo):
-   seed_confirm.py <Cxx> <a|b> [--checks C03,C13]
+   seed_confirm.py <Cxx> <a|b> [--checks C03,C13] [--root /tmp/seed2] [--id Cxx_c]
  1. worktree clean -> copy demo -> demo passes on the unchanged source
  2. git apply patch -> whole suite (775 existing tests) passes, demo fails
  3. git checkout -- . ; remove demo
@@ -33,12 +33,14 @@ def main():
     checks = [pid]
     if "--checks" in sys.argv:
         checks = sys.argv[sys.argv.index("--checks") + 1].split(",")
-    wt = "/tmp/seed/%s" % pid
+    root = sys.argv[sys.argv.index("--root") + 1] if "--root" in sys.argv else "/tmp/seed"
+    sid = sys.argv[sys.argv.index("--id") + 1] if "--id" in sys.argv else "%s_%s" % (pid, v)
+    wt = "%s/%s" % (root, pid)
     src = os.path.join(wt, "out", v)
     patch = os.path.join(src, "patch.diff")
     demo_rel = open(os.path.join(src, "demo_path.txt")).read().strip()
     demo_name = os.path.splitext(os.path.basename(demo_rel))[0]
-    meta = {"id": "%s_%s" % (pid, v), "breaks_property": pid, "worktree": wt, "steps": []}
+    meta = {"id": sid, "breaks_property": pid, "worktree": wt, "steps": []}
     rc, out = sh("git status --porcelain --untracked-files=no", wt)
     if out.strip():
         sh("git checkout -- .", wt)
@@ -79,7 +81,7 @@ def main():
     notes = open(os.path.join(src, "notes.md")).read() if os.path.exists(os.path.join(src, "notes.md")) else ""
     m = re.search(r"(?is)(needs|manifest|trigger)[^\n]*\n(.{0,600})", notes)
     meta["needs_to_manifest"] = "see notes.md"
-    dst = os.path.join(VERIF, "seeded", "%s_%s" % (pid, v))
+    dst = os.path.join(VERIF, "seeded", sid)
     os.makedirs(dst, exist_ok=True)
     shutil.copy(patch, os.path.join(dst, "patch.diff"))
     shutil.copy(os.path.join(src, "demo.rs"), os.path.join(dst, "demo.rs"))
